@@ -20,6 +20,13 @@ Driver for stream `flags` (C16): one op per line, one observation per line.
                                               | fault:flags <n> | fault:perm <n>    (n contexts entered before the fault)
         hop = <requested flags>:<contract id>:<method>:<safe 0/1>      (System.Contract.Call from the current context;
         the entry context has flags F0 and is not deployed)
+  callflags <via> <F> <rq> <safe 0/1>        -> denied | <callee flags>
+  calleff <via> <F> <rq> <safe 0/1> <observed effects> <name>+
+                                             -> (denied | inner-denied | passed) [beyond]
+        via = sc (System.Contract.Call, rq = requested flags) | ct (CALLT, rq = flags of the NEF method token);
+        a context with flags F calls a method (safe-marked or not) whose body runs the named system calls:
+        `denied` = the call itself is refused, `inner-denied` = one of the callee's system calls is refused;
+        `beyond` is appended if the observed effects are not among those of the system calls that ran
   loadscript <F> <requested>                 -> denied | <child flags>
   nativecall <F>                             -> <flags of a context started by contract.CallFromNative from a native context with flags F>
   dynchain <F0> <relay id> <callee id> <method> <safe 0/1>
@@ -104,7 +111,7 @@ def runChain (st : St) (f0 : Nat) (hops : List Hop) : String :=
       | h :: rest =>
         let m : Manifest := ((st.contracts.find? (·.1 == h.id)).map (·.2)).getD ⟨[], []⟩
         let t : Target := ⟨h.id, m, h.method, h.safe⟩
-        let s' := step Params.real s (.call sc (CallFlags.ofNat h.rq) t)
+        let s' := step Params.real s (.call sc false (CallFlags.ofNat h.rq) t)
         if s'.halted then
           match s.stack with
           | cur :: _ => (if cur.flags.has sc.req then "fault:perm " else "fault:flags ") ++ toString entered.length
@@ -180,8 +187,8 @@ def step' (st : St) (ws : List String) : St × String :=
     match f0.toNat?, rid.toNat?, cid.toNat?, syscallPrim "System.Contract.Call", syscallPrim "System.Runtime.LoadScript" with
     | some f0, some rid, some cid, some sc, some ls =>
       let man (id : Nat) : Manifest := ((st.contracts.find? (·.1 == id)).map (·.2)).getD ⟨[], []⟩
-      let prog : List Instr := [.call sc CallFlags.all ⟨rid, man rid, "dyn", false⟩, .loadScript ls CallFlags.all,
-                                .call sc CallFlags.all ⟨cid, man cid, method, sf == "1"⟩]
+      let prog : List Instr := [.call sc false CallFlags.all ⟨rid, man rid, "dyn", false⟩, .loadScript ls CallFlags.all,
+                                .call sc false CallFlags.all ⟨cid, man cid, method, sf == "1"⟩]
       -- run instruction by instruction to know where it stopped and why
       let rec go (s : State) (is : List Instr) (n : Nat) : String :=
         match is with
@@ -197,6 +204,26 @@ def step' (st : St) (ws : List String) : St × String :=
           else go s' rest (n + 1)
       (st, go (State.init ⟨CallFlags.ofNat f0, none, false⟩) prog 0)
     | _, _, _, _, _ => (st, "bad-op")
+  | "callflags" :: via :: f :: rq :: sf :: [] =>
+    match f.toNat?, rq.toNat?, (if via == "ct" then some callTPrim else syscallPrim "System.Contract.Call") with
+    | some f, some rq, some p =>
+      let s := step Params.real (State.init ⟨CallFlags.ofNat f, none, false⟩) (.call p (via == "ct") (CallFlags.ofNat rq) ⟨1, ⟨[], []⟩, "m", sf == "1"⟩)
+      if s.halted then (st, "denied")
+      else match s.stack with
+        | child :: _ => (st, toString child.flags.toNat)
+        | [] => (st, "bad")
+    | _, _, _ => (st, "bad-op")
+  | "calleff" :: via :: f :: rq :: sf :: obs :: names =>
+    match f.toNat?, rq.toNat?, (if via == "ct" then some callTPrim else syscallPrim "System.Contract.Call"), names.mapM syscallPrim with
+    | some f, some rq, some p, some ps =>
+      let s := step Params.real (State.init ⟨CallFlags.ofNat f, none, false⟩) (.call p (via == "ct") (CallFlags.ofNat rq) ⟨1, ⟨[], []⟩, "m", sf == "1"⟩)
+      if s.halted then (st, if effWithin (parseEffects obs) ro then "denied" else "denied beyond")
+      else match s.stack with
+        | child :: _ =>
+          let (dn, e) := seqVerdict child.flags ps
+          (st, (if dn then "inner-denied" else "passed") ++ (if effWithin (parseEffects obs) e then "" else " beyond"))
+        | [] => (st, "bad")
+    | _, _, _, _ => (st, "bad-op")
   | ["loadscript", f, rq] =>
     match f.toNat?, rq.toNat?, syscallPrim "System.Runtime.LoadScript" with
     | some f, some rq, some p =>
